@@ -99,7 +99,7 @@ class Signature(object):
         Q1 = numbertheory.inverse_mod(r, n) * (s * R1 + (-e % n) * generator)
 
         # And the second solution
-        R2 = ellipticcurve.PointJacobi(curve, x, -y, 1, n)
+        R2 = ellipticcurve.PointJacobi(curve, x, -y % curve.p(), 1, n)
         Q2 = numbertheory.inverse_mod(r, n) * (s * R2 + (-e % n) * generator)
 
         # a candidate at infinity is not a public key, skip it
